@@ -217,6 +217,7 @@ fn main() {
     macro_rules! add {
         ($U:ty, $I:ty) => {
             jobs_for::<$U, $I>(&mut jobs);
+            checks::siblings::topic_jobs::<$U, $I>(&mut jobs, checks::siblings::Group::Bits, 150, FACTOR);
         };
     }
     for_all_cfgs!(add);
@@ -224,7 +225,7 @@ fn main() {
     runner::main(
         Property {
             id: "C06",
-            rule: "Patterns come from the structured generators (digit-aligned runs of 0/1 bits, extreme digits, boundary values, short values) and from the neighbourhood of powers of two (2^k + {-2..2}, exact bit length k+1); indices from the structural boundary table reduced below BITS. Oracle: straight loops over the Vec<bool> of the pattern (counts, bit, set_bit = 'bit i equals v and every other bit unchanged', byte/bit reversal, involutions), 2^k from the reference integer, least power of two >= x by bit length. NON-TRIVIAL: the pattern has a whole all-zero/all-one digit adjacent to a partial digit in a scan direction, or is all-zero/all-one, or the bit index lies beyond the first digit, or (next power of two) the value is within one bit of the top or longer than one digit. distinct = distinct (profile, job, inputs) by 64-bit hash. Completely enumerated: the 8-bit configuration (values, indices, operand pairs) and all 65 536 values of both 16-bit configurations for the unary operations. A deterministic SWEEP additionally enumerates, per configuration, position-specific inputs (2^k - 1, 2^k, 2^k + 1 with their negations and complements; carry / borrow chains and power-of-two products ending at every bit position k; every shift / rotate amount; every bit index; every float exponent) - all positions on types up to 1088 bits, a sparse selection of a few hundred positions on wider types in the quick tier, all positions in the thorough tier.",
+            rule: "Patterns come from the structured generators (digit-aligned runs of 0/1 bits, extreme digits, boundary values, short values) and from the neighbourhood of powers of two (2^k + {-2..2}, exact bit length k+1); indices from the structural boundary table reduced below BITS. Oracle: straight loops over the Vec<bool> of the pattern (counts, bit, set_bit = 'bit i equals v and every other bit unchanged', byte/bit reversal, involutions), 2^k from the reference integer, least power of two >= x by bit length. NON-TRIVIAL: the pattern has a whole all-zero/all-one digit adjacent to a partial digit in a scan direction, or is all-zero/all-one, or the bit index lies beyond the first digit, or (next power of two) the value is within one bit of the top or longer than one digit. distinct = distinct (profile, job, inputs) by 64-bit hash. Completely enumerated: the 8-bit configuration (values, indices, operand pairs) and all 65 536 values of both 16-bit configurations for the unary operations. A deterministic SWEEP additionally enumerates, per configuration, position-specific inputs (2^k - 1, 2^k, 2^k + 1 with their negations and complements; carry / borrow chains and power-of-two products ending at every bit position k; every shift / rotate amount; every bit index; every float exponent) - all positions on types up to 1088 bits, a sparse selection of a few hundred positions on wider types in the quick tier, all positions in the thorough tier. SIBLINGS job (per configuration): the entry points of this property's own operations that other properties anchor - the six operand forms of the std operators (a op b, &a op b, a op &b, &a op &b, a op= b, a op= &b; for shifts every primitive and bnum-typed amount type), Sum/Product, and the num_traits forwarders - are compared with the inherent method / const twin (same value, same panic outcome), so that a regression confined to one rarely used entry point is reported by the check of the operation it belongs to as well as by C17/C18.",
             assumptions: &[
                 "digits()/from_digits()/to_bits()/from_bits() are the trusted observation channel",
                 "bit/set_bit/power_of_two are only called with index < BITS (documented to panic otherwise); set_bit and power_of_two exist on unsigned types only",
